@@ -65,7 +65,19 @@ def step (st : St) (args : List String) : St × String :=
       let env : Env := { now := st.now, peer := st.peer, rnd := st.rnd,
                          member := fun u g => st.mem.contains (u, g) }
       let (rsp, rs') := jobExec ToyPrims.prims st.cf env st.rs req sendOk
-      ({ st with rs := rs' }, s!"rsp={Hex.showHex (rsp.getD [])} leak=0")
+      let oob := match recvMsg req with
+        | .dec m => (decProcess ToyPrims.prims st.cf env st.rs m).oob
+        | _ => false
+      ({ st with rs := rs' }, if oob then "oob" else s!"rsp={Hex.showHex (rsp.getD [])} leak=0")
+  | ["forge", c, mc, z, realm, iv, plain] =>
+    match c.toNat?, mc.toNat?, z.toNat?, hexArg realm, hexArg iv, hexArg plain with
+    | some c, some mc, some z, some realm, some iv, some plain =>
+      (st, s!"cred={Hex.showHex (forge ToyPrims.prims st.cf c mc z realm iv plain)}")
+    | _, _, _, _, _, _ => (st, "bad-op")
+  | ["zip", z, h] =>
+    match z.toNat?, hexArg h with
+    | some z, some b => (st, s!"zip={Hex.showHex (zipCompress ToyPrims.prims z b)}")
+    | _, _ => (st, "bad-op")
   | "conf" :: rest => (setEnv st rest, "ok")
   | "replay-reset" :: _ => ({ st with rs := [] }, "ok")
   | "purge" :: rest => let st := setEnv st rest; ({ st with rs := purge st.rs st.now }, "ok")
